@@ -81,7 +81,11 @@ fn cut_read_from<'a, I: crate::JsonInput<'a>>(_input: I) -> crate::Read<'a> {
 /// type, which CBMC cannot unroll (out of memory at 12 GB during symbolic execution). In the
 /// E-owned harnesses `mem::drop` therefore leaks; which box is *returned* is still decided,
 /// that the loser's box is *freed* is not (stated in the claim).
+static mut DROP_CALLS: u8 = 0;
 fn drop_cut<T>(x: T) {
+    // the release itself is cut (leaked), but that it was *asked for* is recorded: a reader that
+    // loses the publish race must hand its own box to `drop` exactly once
+    unsafe { DROP_CALLS = DROP_CALLS.wrapping_add(1) };
     core::mem::forget(x)
 }
 
@@ -91,8 +95,10 @@ fn cut_load_owned_lazyvalue<'de, R: crate::reader::Reader<'de>>(
     _p: &mut crate::parser::Parser<R>,
     _strbuf: &mut Vec<u8>,
 ) -> Result<OwnedLazyValue> {
+    unsafe { LOAD_CALLS = LOAD_CALLS.wrapping_add(1) };
     Ok(OwnedLazyValue(LazyPacked::Parsed(Parsed::Bool(true))))
 }
+static mut LOAD_CALLS: u8 = 0;
 
 /// C18 E-owned: `loads` loads by the reader under test on one shared LazyRaw, the other reader may
 /// publish at any atomic step: every load returns the one decoding that is cached (never a
@@ -102,6 +108,8 @@ fn owned_load_body(two_loads: bool) {
         INTERFERE_KIND = 3;
         OTHER_PUBLISHED = 0;
         OTHER_BOX = core::ptr::null_mut();
+        DROP_CALLS = 0;
+        LOAD_CALLS = 0;
     }
     let mut lr = LazyRaw {
         raw: FastStr::from_static_str("[1]"),
@@ -125,6 +133,13 @@ fn owned_load_body(two_loads: bool) {
     } else {
         assert!(mine1);
     }
+    // a decoding made by the reader under test that did not get published is released (once);
+    // nothing is released when its decoding is the published one
+    let decoded = unsafe { LOAD_CALLS } >= 1;
+    let lost = other && decoded;
+    assert!(unsafe { LOAD_CALLS } <= 1);
+    assert_eq!(unsafe { DROP_CALLS }, lost as u8);
+    kani::cover!(lost);
     unsafe { INTERFERE_KIND = 0 };
     assert_eq!(*lr.parsed.get_mut() as *const Parsed, p1);
     // (clone_lazyraw is not exercised here: cloning a Parsed runs the recursive clone glue of the
